@@ -559,6 +559,7 @@ class Interp:
             if rng is not None:
                 kx = sym.smin(start, stop) if desc else sym.smax(start, stop)
                 scrub()
+                c.ghost["_havoc_kind"] = "exhausted"
                 rule.havoc(self, fr, kx)
                 if not c.ghost.get("_loop_depth"):
                     c.ghost["phase"] = "exhausted"
@@ -566,6 +567,7 @@ class Interp:
                 kx = SInt.var(c.fresh_name("kexit"))
                 c.assume(kx >= 0)
                 scrub()
+                c.ghost["_havoc_kind"] = "exhausted"
                 rule.havoc(self, fr, kx)
                 if not c.ghost.get("_loop_depth"):
                     c.ghost["phase"] = "exhausted"
@@ -589,6 +591,7 @@ class Interp:
             if rng is not None:
                 c.assume(k < stop)
         scrub()
+        c.ghost["_havoc_kind"] = "generic"
         rule.havoc(self, fr, k)
         # "phase" describes the OUTERMOST symbolic loop of the path: loops nested in its generic iteration do not overwrite it
         depth = c.ghost.get("_loop_depth", 0)
